@@ -131,6 +131,17 @@ def evaluate(case):
     added2 = np.asarray(Gon2, dtype=float) - np.asarray(Goff2, dtype=float)
     if exceeds(np.abs(added2 - added)[pos].max(initial=0.0), 1e-9 * max(float(np.abs(Goff).max()), float(np.abs(Goff2).max()), sc)):
         fails.append("added term changes when interior data change (must depend on Qmin, S(Qmin), Qmax only)")
+    # the r grid as whole numbers held in an integer array: the same added term as for the same grid held as floats
+    rw = np.arange(1, 2 + len(r) % 4, dtype=np.int64)
+    with np.errstate(all="ignore"):
+        try:
+            a_i = np.asarray(fn(q, y, rw, OmittedXrangeCorrection=True, **kw)[1], dtype=float) - np.asarray(fn(q, y, rw, **kw)[1], dtype=float)
+            rf = rw.astype(float)
+            a_f = np.asarray(fn(q, y, rf, OmittedXrangeCorrection=True, **kw)[1], dtype=float) - np.asarray(fn(q, y, rf, **kw)[1], dtype=float)
+            if a_i.shape != a_f.shape or exceeds(np.abs(a_i - a_f).max(initial=0.0), 1e-9 * max(float(np.abs(a_f).max(initial=0.0)), 1e-300) + 1e-12 * float(np.abs(Goff).max())):
+                fails.append(f"{inp}_to_{out}: on the integer-typed r grid {rw.tolist()} the added term is {a_i.tolist()[:3]}, on the same grid as floats {a_f.tolist()[:3]}")
+        except Exception as ex:  # noqa: BLE001
+            fails.append(f"{inp}_to_{out}: an integer-typed r grid raises {type(ex).__name__} with the omitted-range correction")
     # compiled reference routine (uniform grids; its r grid is n*delr, never 0)
     if case.get("uniform"):
         import fortran
